@@ -7,6 +7,7 @@ import Orx.GenThms.Arr
 import Orx.GenThms.Range
 import Orx.Props.C07
 import Orx.GenThms.Defaults
+import Orx.GenThms.Surface
 /-! # C02 Index fidelity: a reported index is the element's source position -/
 namespace Orx.Props.C02
 open Orx Orx.KS
@@ -125,5 +126,18 @@ theorem source_next_is_the_element_at_the_counter (len a b c : Nat) (evs dr) (ha
     Arr.next len (arr len) (st c evs dr) = .ok (if c < len then some c else none) (st (wrapAdd c 1) (evs ++ [faa c 1]) dr) ∧
     Range.next (range a b) (st c evs dr) = .ok (if c < b - a then some (a + c) else none) (st (wrapAdd c 1) (evs ++ [faa c 1]) dr) :=
   ⟨slice_next len c evs dr, vec_next len c evs dr, arr_next len c evs dr, range_next a b c evs dr ha hb⟩
+
+section Surface
+open Orx.GenThms.Surface
+
+/-- the index a single pull reports is computed by the trait's default `fetch_one` for every kind (no override anywhere) -/
+theorem source_single_pull_is_the_trait_default :
+    (implementors.all fun x => (fnsOf "AtomicIter" x).length == 1 &&
+      (fnsOf "AtomicIter" x).all (sameSet requiredAtomicIter)) = true ∧
+    sameSet (implsOf "AtomicIter") implementors = true ∧
+    fnsOf "trait" "AtomicIter" = [["counter", "progress_and_get_begin_idx", "get", "fetch_one", "fetch_n", "early_exit"]] :=
+  Orx.GenThms.Surface.atomic_iter_defaults_are_not_overridden
+
+end Surface
 
 end Orx.Props.C02
